@@ -221,8 +221,11 @@ def check_genseq(case):
                 if k >= 2:
                     recs = [[f"{i}:{i + 1}:{a}-{b}"] for i in range(k - 1) for a in {0, sizes[i] - 1} for b in {0, sizes[i + 1] - 1}]
                     conn_opts += recs
+                    # one record with several comma separated edges (ring closure / cross link between two blocks)
+                    conn_opts.append([f"0:1:{sizes[0] - 1}-0,0-{sizes[1] - 1}"])
                     if k == 3:
                         conn_opts.append([f"0:1:{sizes[0] - 1}-0", f"1:2:{sizes[1] - 1}-0"])
+                        conn_opts.append([f"0:2:0-0,{sizes[0] - 1}-{sizes[2] - 1}", f"1:2:0-{sizes[2] - 1}"])
                 for connects in conn_opts:
                     for mods, tags in (([], []), (["0:TER"], []), ([], [f"{k - 1}:chiral:R-1.0"]), ([f"{k - 1}:END"], ["0:lab:q-1.0"])):
                         evals += 1
@@ -244,9 +247,10 @@ def check_genseq(case):
                             seqids += [si] * n
                             edges |= {frozenset((off[-1] + a, off[-1] + b)) for a, b in es}
                         for rec in connects:
-                            i, j, ab = rec.split(":")
-                            a, b = ab.split("-")
-                            edges.add(frozenset((off[int(i)] + int(a), off[int(j)] + int(b))))
+                            i, j, abs_ = rec.split(":")
+                            for ab in abs_.split(","):
+                                a, b = ab.split("-")
+                                edges.add(frozenset((off[int(i)] + int(a), off[int(j)] + int(b))))
                         deg = {i: 0 for i in range(len(names))}
                         for e in edges:
                             for x in e:
